@@ -1676,3 +1676,14 @@ TABLE["C17"] += [
     B("index-lookup-takes-the-first-compound", {"Q5"}, (XMLP, """index_root.find(f"./*[name='{cpp_class}']")""", """index_root.find(f"./*[1][name='{cpp_class}']")""")),
     N("index-lookup-names-the-compound-tag", (XMLP, """index_root.find(f"./*[name='{cpp_class}']")""", """index_root.find(f"./compound[name='{cpp_class}']")""")),
 ]
+
+# round 10
+TABLE["C01"] += [
+    B("methods-grouped-by-name", {"G16"},
+      (IP + "classes.py", "                    self.methods.append(m)\n", "                    self.methods.insert(max([i + 1 for i, x in enumerate(self.methods) if x.name == m.name] or [len(self.methods)]), m)\n")),
+    B("members-sorted-by-name", {"G16"}, (IP + "classes.py", "                elif isinstance(m, Enum):\n                    self.enums.append(m)\n",
+                                          "                elif isinstance(m, Enum):\n                    self.enums.append(m)\n            self.static_methods.sort(key=lambda x: x.name)\n")),
+    B("namespace-chain-inserted-before-the-last", {"G17"}, (IP + "utils.py", "        namespaces = [ancestor.name] + namespaces", "        namespaces.insert(-1, ancestor.name)")),
+    B("namespace-chain-innermost-first", {"G17"}, (IP + "utils.py", "        namespaces = [ancestor.name] + namespaces", "        namespaces = namespaces + [ancestor.name]")),
+    N("namespace-chain-inserted-in-front", (IP + "utils.py", "        namespaces = [ancestor.name] + namespaces", "        namespaces.insert(0, ancestor.name)")),
+]
